@@ -275,3 +275,44 @@ def recvRaw (r : Receiver) (bytes : Bytes) (pkt : Packet) : Option (Receiver × 
       else some (recvFrame r { len := v, pkt := pkt })
 
 end Tmv.MConn
+
+namespace Tmv.MConn
+
+/-! ### the send routine's channel choice (`sendPacketMsg`, least `recentlySent / priority`) -/
+
+/-- what the choice reads of a channel -/
+structure PCh where
+  id : Nat
+  prio : Nat              -- `desc.Priority` (> 0, `newChannel` panics otherwise)
+  recentlySent : Nat      -- bytes written recently (decayed by `updateStats`)
+deriving Repr, DecidableEq
+
+/-- `ratio_a < ratio_b` with `ratio = recentlySent / priority`, compared exactly (the code divides
+in float32; for the magnitudes involved between two decays the comparison agrees) -/
+def better (a b : PCh) : Bool := a.recentlySent * b.prio < b.recentlySent * a.prio
+
+/-- the loop of `sendPacketMsg` over the PENDING channels in channel order: the first pending
+channel starts as the least (`leastRatio = MaxFloat32`), a later one replaces it only with a
+strictly smaller ratio -/
+def pickLeast (pending : List PCh) : Option PCh :=
+  pending.foldl (fun best ch =>
+    match best with
+    | none => some ch
+    | some b => if better ch b then some ch else some b) none
+
+/-- after the packet is written: `recentlySent += n` on the chosen channel -/
+def creditSent (chans : List PCh) (id n : Nat) : List PCh :=
+  chans.map fun c => if c.id = id then { c with recentlySent := c.recentlySent + n } else c
+
+/-- one send step: `pending` tells which channels have something to send; the least-ratio pending
+channel is charged `n` bytes -/
+def schedStep (chans : List PCh) (pending : Nat → Bool) (n : Nat) : List PCh × Option Nat :=
+  match pickLeast (chans.filter fun c => pending c.id) with
+  | none => (chans, none)
+  | some d => (creditSent chans d.id n, some d.id)
+
+/-- `updateStats`: `recentlySent = int64(float64(recentlySent) * 0.8)` on every channel -/
+def decay (chans : List PCh) : List PCh :=
+  chans.map fun c => { c with recentlySent := c.recentlySent * 4 / 5 }
+
+end Tmv.MConn
